@@ -14,6 +14,7 @@ import (
 	"strings"
 	"time"
 
+	"github.com/spf13/cobra"
 	"github.com/spf13/viper"
 
 	"verifharness/hx"
@@ -161,12 +162,13 @@ type runner struct {
 	prist    []string // pristine defaults (table order)
 	own      bool
 	byYAML   map[string]int
-	slots    map[string]*gslot // genesis paths of the running scenario
-	cfgHomes map[string]string // homes re-used by `save at=<n>` in the running scenario
+	slots    map[string]*gslot   // genesis paths of the running scenario
+	cfgHomes map[string]string   // homes re-used by `save at=<n>` in the running scenario
+	cmds     map[string]*cmdSlot // command objects re-used by `load|save cmd=<n>` in the running scenario
 }
 
 func newRunner(c *hx.Ctx) *runner {
-	r := &runner{c: c, fs: Fields(), byYAML: map[string]int{}, slots: map[string]*gslot{}, cfgHomes: map[string]string{}}
+	r := &runner{c: c, fs: Fields(), byYAML: map[string]int{}, slots: map[string]*gslot{}, cfgHomes: map[string]string{}, cmds: map[string]*cmdSlot{}}
 	r.fl, _ = Flags(false)
 	ScrubEnv(r.fs, r.fl)
 	p := DeepCopy(pristine)
@@ -289,21 +291,45 @@ func (r *runner) doLoad(o hx.Op) {
 		r.c.Emit("bad-op")
 		return
 	}
-	home := r.home()
-	defer os.RemoveAll(home)
-	if len(fi) > 0 {
-		_ = os.MkdirAll(filepath.Join(home, config.AppConfigDir), 0o755)
-		if err := os.WriteFile(filepath.Join(home, config.AppConfigDir, config.ConfigName), []byte(WriteYAML(fi, r.kindOfPath)), 0o644); err != nil {
-			r.c.Emit("err:harness")
-			return
-		}
+	cn, okC := keyedSlot(o, "cmd")
+	if !okC {
+		r.c.Emit("bad-op")
+		return
 	}
 	var args []string
 	for _, p := range fl {
 		args = append(args, "--"+p.K+"="+p.V)
 	}
+	// `cmd=<n>`: the load goes through the scenario's command object number n (parsed once, with
+	// this command line) in its own home, whose file this op replaces; otherwise a fresh command
+	// in a fresh home.
+	var slot *cmdSlot
+	var home string
+	if cn == "" {
+		home = r.home()
+		defer os.RemoveAll(home)
+	} else {
+		slot = r.cmdSlot(cn)
+		home = slot.home
+	}
+	cfgFile := filepath.Join(home, config.AppConfigDir, config.ConfigName)
+	if len(fi) > 0 {
+		_ = os.MkdirAll(filepath.Join(home, config.AppConfigDir), 0o755)
+		if err := os.WriteFile(cfgFile, []byte(WriteYAML(fi, r.kindOfPath)), 0o644); err != nil {
+			r.c.Emit("err:harness")
+			return
+		}
+	} else if slot != nil {
+		_ = os.Remove(cfgFile)
+	}
 	before := Snapshot(&config.DefaultConfig, r.fs)
-	cfg, err := RealLoad(home, args)
+	var cfg config.Config
+	var err error
+	if slot == nil {
+		cfg, err = RealLoad(home, args)
+	} else if err = slot.ensure(home, args, o.Bool("newcmd")); err == nil {
+		cfg, err = LoadThrough(slot.cmd)
+	}
 	if err != nil {
 		if strings.HasPrefix(err.Error(), "flag-parse:") {
 			registered := true
@@ -332,6 +358,12 @@ func (r *runner) doLoad(o hx.Op) {
 	got := Snapshot(&cfg, r.fs)
 	if cfg.RootDir != home {
 		r.c.Report("C18/home-ignored", fmt.Sprintf("RootDir=%q, --home=%q", cfg.RootDir, home))
+	}
+	// what a Load returns depends only on (command line, file now, defaults): never on an earlier
+	// Load through the same command object
+	var histDiff map[int]bool
+	if slot != nil {
+		histDiff = r.checkHistory(slot, home, args, fl, got)
 	}
 	focus := "v=- src=none"
 	for i, f := range r.fs {
@@ -365,6 +397,8 @@ func (r *runner) doLoad(o hx.Op) {
 		}
 		// the oracle: flag > file > default
 		switch {
+		case histDiff[i]:
+			// already reported as history dependence (a fresh command returns something else)
 		case flagGiven:
 			if g != fv {
 				if (fileGiven && g == filev) || g == r.prist[i] || g == before[i] {
@@ -393,6 +427,81 @@ func (r *runner) doLoad(o hx.Op) {
 	}
 	r.checkDefaultsUntouched(before)
 	r.c.Emit("ok %s cfg=%s", focus, r.cfgList(got))
+}
+
+// cmdSlot is one command object that lives for a whole scenario (`cmd=<n>`): parsed once, every
+// load of the scenario that names it goes through it.
+type cmdSlot struct {
+	home  string
+	cmd   *cobra.Command
+	argS  string // the command line it was parsed with
+	loads int    // Loads that already went through cmd
+}
+
+// ensure (re)creates the command object when there is none yet, when the op asks for a new one
+// (`newcmd=1`) or when the op's command line is not the one the object was parsed with.
+func (s *cmdSlot) ensure(home string, args []string, fresh bool) error {
+	argS := strings.Join(args, "\x00")
+	if s.cmd != nil && !fresh && argS == s.argS {
+		return nil
+	}
+	cmd, err := ParsedCommand(home, args)
+	if err != nil {
+		return err
+	}
+	s.cmd, s.argS, s.loads = cmd, argS, 0
+	return nil
+}
+
+func (r *runner) cmdSlot(name string) *cmdSlot {
+	if s, ok := r.cmds[name]; ok {
+		return s
+	}
+	s := &cmdSlot{home: r.home()}
+	r.cmds[name] = s
+	return s
+}
+
+// keyedSlot: "" = key absent; ok=false = malformed
+func keyedSlot(o hx.Op, key string) (string, bool) {
+	if !o.Has(key) {
+		return "", true
+	}
+	n, ok := o.U64(key)
+	return strconv.FormatUint(n, 10), ok
+}
+
+// checkHistory compares what the Load through the scenario's command object returned (`got`)
+// with what a Load through a FRESH command object returns for the same command line and the same
+// home (so: the same file, the same defaults), and looks at the flags the command line did not
+// give. Returns the options on which the two differ.
+func (r *runner) checkHistory(slot *cmdSlot, home string, args []string, fl []pair, got []string) map[int]bool {
+	slot.loads++
+	given := map[string]bool{}
+	for _, p := range fl {
+		given[p.K] = true
+	}
+	if t := TouchedFlags(slot.cmd, given); len(t) > 0 {
+		r.c.Report("C18/history/load-sets-flag-not-given", fmt.Sprintf("after config.Load, %d flag(s) the command line did not give are marked Changed / hold another value than their default, so the command object now carries values nobody typed: %s", len(t), strings.Join(t, ", ")))
+	}
+	saved := DeepCopy(config.DefaultConfig) // the control load is not part of the history
+	ctl, err := RealLoad(home, args)
+	restoreFrom(saved)
+	diff := map[int]bool{}
+	if err != nil {
+		return diff // the Load under test succeeded on the same input: judged by the oracle below
+	}
+	cs := Snapshot(&ctl, r.fs)
+	for i, f := range r.fs {
+		if isOption(f) && cs[i] != got[i] {
+			diff[i] = true
+			r.c.Report("C18/history/load-depends-on-earlier-load", fmt.Sprintf("Load number %d through one command object resolves %s to %q; a Load through a fresh command object with the same command line, the same file and the same defaults resolves it to %q", slot.loads, f.Go, got[i], cs[i]))
+		}
+	}
+	if slot.loads > 1 {
+		r.c.Hit("load:same-command")
+	}
+	return diff
 }
 
 var quotedKeyRe = regexp.MustCompile(`'([A-Za-z0-9_.\[\]-]+)'`)
@@ -489,8 +598,24 @@ func (r *runner) doSave(o hx.Op, exotic bool) {
 	}
 	// `at=<n>`: the scenario's home number n, which keeps the file an earlier save of the scenario
 	// wrote (longer or shorter than this one); otherwise a fresh home for this op only
+	// `cmd=<n> [fl=…]`: written to the home of the scenario's command object number n and loaded
+	// back THROUGH that object (which earlier loads of the scenario already went through)
+	fl, okFl := parsePairs(o.Str("fl"))
+	cn, okC := keyedSlot(o, "cmd")
+	if !okFl || !okC {
+		r.c.Emit("bad-op")
+		return
+	}
+	var args []string
+	for _, p := range fl {
+		args = append(args, "--"+p.K+"="+p.V)
+	}
+	var slot *cmdSlot
 	var home string
-	if at, okAt := slotName(o); !okAt {
+	if cn != "" {
+		slot = r.cmdSlot(cn)
+		home = slot.home
+	} else if at, okAt := slotName(o); !okAt {
 		r.c.Emit("bad-op")
 		return
 	} else if at == "" {
@@ -505,6 +630,21 @@ func (r *runner) doSave(o hx.Op, exotic bool) {
 	}
 	cfg.RootDir = home
 	want := Snapshot(&cfg, r.fs)
+	// an option named by a flag of the command line loads back as the flag says
+	for i, f := range r.fs {
+		if nf, has := r.flagNaming(f); has && isOption(f) {
+			if fv, given := lookup(fl, nf.Name, false); given {
+				want[i] = fv
+			}
+		}
+	}
+	if slot != nil {
+		if err := slot.ensure(home, args, o.Bool("newcmd")); err != nil {
+			r.c.Hit("save:flag-parse")
+			r.c.Emit("err:flag-parse")
+			return
+		}
+	}
 	if err := func() (err error) {
 		defer func() {
 			if p := recover(); p != nil {
@@ -518,7 +658,15 @@ func (r *runner) doSave(o hx.Op, exotic bool) {
 		return
 	}
 	before := Snapshot(&config.DefaultConfig, r.fs)
-	back, err := RealLoad(home, nil)
+	var back config.Config
+	var err error
+	if slot != nil {
+		back, err = LoadThrough(slot.cmd)
+	} else if back, err = RealLoad(home, args); err != nil && strings.HasPrefix(err.Error(), "flag-parse:") {
+		r.c.Hit("save:flag-parse")
+		r.c.Emit("err:flag-parse")
+		return
+	}
 	if err != nil {
 		r.c.Report("C18/saveload/load-error", "a configuration written by SaveAsYaml does not load: "+err.Error())
 		if exotic {
@@ -529,6 +677,10 @@ func (r *runner) doSave(o hx.Op, exotic bool) {
 		return
 	}
 	got := Snapshot(&back, r.fs)
+	var histDiff map[int]bool
+	if slot != nil {
+		histDiff = r.checkHistory(slot, home, args, fl, got)
+	}
 	// did viper manage to read the file at all? (Load ignores the error of ReadInConfig)
 	pv := viper.New()
 	pv.SetConfigFile(cfg.ConfigPath())
@@ -541,7 +693,7 @@ func (r *runner) doSave(o hx.Op, exotic bool) {
 		}
 	}
 	for i, f := range r.fs {
-		if isOption(f) && got[i] != want[i] {
+		if isOption(f) && got[i] != want[i] && !histDiff[i] {
 			w, g := want[i], got[i]
 			switch {
 			case parseErr != nil && !qmark:
@@ -627,6 +779,10 @@ func (r *runner) dropSlots() {
 		_ = os.RemoveAll(h)
 	}
 	r.cfgHomes = map[string]string{}
+	for _, c := range r.cmds {
+		_ = os.RemoveAll(c.home)
+	}
+	r.cmds = map[string]*cmdSlot{}
 }
 
 func (r *runner) slot(name string) *gslot {
